@@ -19,6 +19,7 @@ package snapstate_test
 //	w.failBefore(chg, t)                 wire an always-failing task in front of t ("t failed before doing anything")
 //	w.failBackend(op, name, rev)         arm a one-shot fault inside the fake backend (see worldBackendFaults)
 //	w.run(chg)                           settle (lock NOT held by the caller), fold new backend ops into the model
+//	w.pruneChanges()                     drop ready changes from the state (what the overlord's periodic Prune does)
 //	w.view(name)                         snapshot of recorded state + world for one snap (C10 oracle input)
 //	w.consistency()                      cross-check of snapstate.All against the world model (C11 oracle)
 //	w.mounted / w.current / w.aliases / w.data   the model itself
@@ -843,6 +844,15 @@ func (w *world) run() error {
 	err := w.o.Settle(5 * time.Minute)
 	w.fold()
 	return err
+}
+
+// pruneChanges removes the ready changes (and their tasks) from the state, as the
+// overlord's periodic State.Prune does with old changes.  Long enumerations on one
+// world call it between operations: every state checkpoint marshals all changes.
+func (w *world) pruneChanges() {
+	w.state.Lock()
+	defer w.state.Unlock()
+	w.state.Prune(time.Time{}, 24*time.Hour, 10*365*24*time.Hour, 0)
 }
 
 // worldChangeReport: status of a settled change and its tasks.
